@@ -53,6 +53,9 @@ theorem unroll_ok (k next : Nat) (t : T) (h : Coherent t) : LocOk t (unrollLoc k
 theorem unrollChildren_ok (next : Nat) (t : T) (h : Coherent t) : LocOk t (unrollChildrenLoc next t) := by
   unfold unrollChildrenLoc
   simp only
+  by_cases hleaf : t.isLeaf = true
+  · rw [if_pos hleaf]; exact locOk_err t _ next h
+  rw [if_neg hleaf]
   cases hs : sliceAssign t.info.uid t.kids none none none
       (copyMany (some t.info.uid) t.kids t.info.rep.toNat next).1 with
   | error e => exact locOk_err t e next h
